@@ -94,6 +94,9 @@ PROBES = [
     ('p-deep-expr-700', DEEP_FAIL, dict(w=64, use_stl=True, version=1)),
     ('p-deep-expr-in-macro-depth-3000', DEEP_IN_MACRO, dict(w=64, use_stl=False, version=1, max_recursion_depth=3000)),
     ('p-deep-expr-in-macro-depth-default', DEEP_IN_MACRO, dict(w=64, use_stl=False, version=1)),
+    # an invalid file list (the user file carries the short name of the first stl file): refused whether or not the stl parse is cached
+    ('p-user-file-with-an-stl-short-name', NOSTL, dict(w=64, use_stl=True, version=1, names=['s1'])),
+    ('p-user-file-with-an-stl-short-name-32', NOSTL, dict(w=32, use_stl=True, version=1, names=['s2'])),
 ]
 
 
